@@ -105,4 +105,23 @@ class Check(Property):
             woff = Fraction(c["offset"]) if c["offset"] is not None else Fraction(0)
             if tname == "fraction" and Fraction(off) != woff:
                 v.append(f"C20 {name}: offset {off} but the standard offset is {woff}")
+        # "converts to SI with exactly its standardised factor": through the conversion entry points of the default (float)
+        # registry with every kind of magnitude - int, float, Fraction, Decimal: the factor to 12 significant digits at least
+        if c["offset"] is None or Fraction(c["offset"]) == 0:
+            from decimal import Decimal
+            uf = regs.ureg("float")
+            for label, mag in (("int", 1), ("float", 1.0), ("Fraction", Fraction(1)), ("Decimal", Decimal(1)), ("Decimal", Decimal("2.5"))):
+                for entry in ("to_root_units", "convert"):
+                    try:
+                        if entry == "to_root_units":
+                            got = uf.Quantity(mag, name).to_root_units().magnitude
+                        else:
+                            _, ru = uf.get_root_units(name)
+                            got = uf.convert(mag, name, ru)
+                        ratio = Fraction(got) / (want * Fraction(mag))
+                    except Exception:  # noqa: BLE001
+                        continue          # (a refusal is not a wrong factor; Decimal x float offsets are refused by Python)
+                    if abs(ratio - 1) > Fraction(1, 10 ** 12):
+                        v.append(f"C20 {name}: {entry} of the {label} magnitude {mag} gives {got}, the standard factor is {float(want)!r}")
+                        break
         return v
